@@ -203,6 +203,18 @@ fn spec_c19() -> FullWorldSpec {
     FullWorldSpec { profile: p, tune_cfg: tune_short_periods, monitors: || vec![Box::new(c19::C19::default()) as Box<dyn Monitor>], steer: None, lenient_bank: false }
 }
 
+fn spec_c14() -> FullWorldSpec {
+    let mut p = Profile::economy("c14");
+    p.steps = (100, 300);
+    FullWorldSpec { profile: p, tune_cfg: no_tune, monitors: || vec![Box::new(c14::C14::default()) as Box<dyn Monitor>], steer: Some(crate::rewardworld::steer), lenient_bank: false }
+}
+
+fn spec_c15() -> FullWorldSpec {
+    let mut p = Profile::economy("c15");
+    p.steps = (100, 300);
+    FullWorldSpec { profile: p, tune_cfg: no_tune, monitors: || vec![Box::new(c15::C15::default()) as Box<dyn Monitor>], steer: Some(crate::rewardworld::steer), lenient_bank: false }
+}
+
 pub fn defs() -> Vec<PropDef> {
     let _ = no_tune;
     vec![
@@ -255,6 +267,16 @@ pub fn defs() -> Vec<PropDef> {
             id: "C13", salt: 13, budget: (400, 8_000, 100), spec: spec_c13,
             required: &[("c13.removals_with_stake_redelegated", 1), ("c13.removals_while_redelegation_locked", 1), ("c13.last_validator_removal_rejected", 1), ("c13.removals_of_re_added_validator", 1), ("c13.removals_with_pending_rewards", 1), ("c13.removals_with_inflight_batches", 1), ("c13.delegations_checked", 1)],
             rule: "full-world histories with frequent registry changes; a case is a successful removal by the owner; distinct = (kind, registry size, #redelegations, decade of stake, pending rewards?)",
+        },
+        PropDef {
+            id: "C14", salt: 14, budget: (1000, 20_000, 100), spec: spec_c14,
+            required: &[("c14.invariant_checks", 1), ("c14.index_updates_with_holders", 1), ("c14.index_updates_without_holders", 1), ("c14.claims_ok", 1), ("c14.claims_to_third_party", 1), ("c14.claims_keeping_a_fraction", 1), ("c14.claims_rejected_below_one_unit", 1), ("c14.updates_one_unit_against_huge_supply", 1), ("c14.updates_huge_reward_against_dust_supply", 1)],
+            rule: "reward-contract world (real reward contract + bSei token + hub config; deliveries by bank transfer + UpdateGlobalIndex from the dispatcher address; mint/burn by the hub address); a case is a claim or an index update; distinct = (kind, decade of amount, fraction kept? / decade of supply, third-party recipient?, #holders)",
+        },
+        PropDef {
+            id: "C15", salt: 15, budget: (500, 10_000, 100), spec: spec_c15,
+            required: &[("c15.ledger_comparisons", 1), ("c15.updates_with_3plus_holders", 1), ("c15.claims", 1), ("c15.balance_changes_checked", 1)],
+            rule: "reward-contract world; reference ledger in exact 1e-36 arithmetic fed by observed balances and deliveries; a case is an index update with holders; distinct = (#holders, decade of delivery, decade of supply)",
         },
         PropDef {
             id: "C16", salt: 16, budget: (600, 12_000, 100), spec: spec_c16,
